@@ -19,7 +19,8 @@ _TRUSTED = ["plug-in instances from plugin.NewReportingPluginFactory with in-mem
 
 CFG = dict(
     pkg="c01",
-    tests=["TestC01"],
+    tests=["TestC01", "TestC01Uid"],
+    case_files={"cases": "c01:TestC01", "cases_uid": "c01:TestC01Uid"},
     n_quick=120, n_thorough=500, shards_thorough=6, timeout_quick=900, timeout_thorough=3000,
     rule=_OUTCOME_RULE,
     trusted=_TRUSTED,
@@ -27,6 +28,6 @@ CFG = dict(
                  "uid_inj (digest injective) is an explicit hypothesis of C01_agreed_iff_quorum and is REFUTED for the real "
                  "UniqueID (known finding F01); the checker K compares results field by field, so a collision shows as a failing case",
                  "shuf_inj: ShuffleString permutes positions of equal-length work ids (asserted per case on the real function)"],
-    modelled="performables.add/set, Outcome's decode-validate-skip loop (pkg/v3/plugin/{performable,ocr3}.go); JSON decoding, "
+    modelled="byte-exact model of CheckResult.UniqueID() (Model/Uid.v, compared with the real digest on ~70 results per run); performables.add/set, Outcome's decode-validate-skip loop (pkg/v3/plugin/{performable,ocr3}.go); JSON decoding, "
              "UniqueID, ShuffleString and the work-id generator are oracles tabulated from the real code",
 )
